@@ -204,10 +204,13 @@ def check_join(case, rec):
             one["alias_left"] = True
             a = a * 2   # the same item OBJECTS twice (list semantics of *)
         b = di.ListOfDicts([dict(x) for x in right])
+        by_arg = [list(x) if (case.get("pair_form") == "list" and not isinstance(x, str)) else x for x in by]
+        if case.get("pair_form"):
+            one["pair_form"] = case["pair_form"]
         try:
-            out = getattr(a, join)(b, *by)
+            out = getattr(a, join)(b, *by_arg)
         except Exception as e:
-            rec.violation(join, "raised", one, f"{type(e).__name__}: {e}; left={left} right={right} by={by}")
+            rec.violation(join, "raised", one, f"{type(e).__name__}: {e}; left={left} right={right} by={by_arg}")
             continue
         if not isinstance(out, list) or not all(isinstance(x, dict) for x in out):
             rec.violation(join, "malformed-result", one, f"result is not a list of dicts: {out!r}")
@@ -262,7 +265,10 @@ def check_agg(case, rec):
         if case.get("regroup"):
             # the same list object was grouped (by other keys) and aggregated before
             a.group_by(*case["regroup"]).aggregate(n=len)
-        out = a.group_by(*by).aggregate(n=len, ids=group_digest)
+        g = a.group_by(*by)
+        if case.get("twice"):
+            g.aggregate(n=len)   # the grouped list has been aggregated before: it is still grouped
+        out = g.aggregate(n=len, ids=group_digest)
     except Exception as e:
         rec.violation("aggregate", "raised", case, f"{type(e).__name__}: {e}; items={items} by={by}")
         return
@@ -319,6 +325,9 @@ def run_shard(shard, rec):
                 check_case(case, rec)
                 if 1 <= nl <= 2 and shard["cfg"] in ("1-same", "1-ren", "2-same"):
                     check_case(dict(case, alias_left=True), rec)
+                if nl <= 2 and nr <= 2 and shard["cfg"] in ("1-ren", "2-mixed"):
+                    # a (left, right) pair written as a list: accepted like a tuple on the unchanged tree
+                    check_case(dict(case, pair_form="list"), rec)
                 count += 1
                 if count % 997 == 1:
                     rec.sample({"part": "join", "left": left, "right": right, "by": by, "joins": joins})
@@ -331,6 +340,8 @@ def run_shard(shard, rec):
             for by in AGG_BY:
                 case = {"part": "agg", "items": items, "by": by}
                 check_case(case, rec)
+                if 1 <= n <= 3:
+                    check_case(dict(case, twice=True), rec)
                 if 2 <= n <= 3:
                     check_case(dict(case, regroup=[k for k in ("k2", "k") if k not in by] or list(reversed(by))), rec)
                 count += 1
